@@ -91,20 +91,22 @@ ChildExit ==
 MInstalled ==
   /\ Step("MInstalled")
   /\ Req("C01", Ev.outcome = "ok")
-  /\ Req("C11", Ev.outcome = "ok" => (Ev.new_mappings = 1 /\ Le(AbsDiff(Ev.tramp, Ev.func), R128)))
-  /\ Req("C12", Ev.outcome = "ok" => Ev.new_mappings = 1)
+  \* at most one mapping stays behind per installation (none when trampolines share a mapping obtained earlier)
+  /\ Req("C11", Ev.outcome = "ok" => (Ev.new_mappings <= 1 /\ (Ev.new_mappings = 1 => Le(AbsDiff(Ev.tramp, Ev.func), R128))))
+  /\ Req("C12", Ev.outcome = "ok" => Ev.new_mappings <= 1)
   /\ s' = s
 \* the bytes every call runs through, read after ALL installations of the lifetime, executed on the X64 model
 MState ==
   /\ Step("MState")
   /\ Req("C01", Ev.tramp_mapped)
-  /\ (Ev.tramp_mapped => JumpOk(Ev))
+  /\ (Ev.tramp_mapped => (IF Ev.kind = "bool" THEN BoolOk(Ev) ELSE JumpOk(Ev)))
   /\ s' = s
 MCalled ==
   /\ Step("MCalled")
   /\ Req("C01", Ev.phase = "installed" => Ev.res = Ev.want)
   /\ Req("C11", Ev.phase = "installed" => Ev.res = Ev.want)
   /\ Req("C13", Ev.phase = "installed" => Ev.res = Ev.want)
+  /\ Req("C10", Ev.res = Ev.want)
   /\ Req("C02", Ev.phase = "dropped" => Ev.res = Ev.want)
   /\ Req("C03", Ev.res = Ev.want)
   /\ s' = s
